@@ -5,6 +5,7 @@ package interp
 
 import (
 	"go/types"
+	"path/filepath"
 	"sort"
 	"strings"
 )
@@ -118,6 +119,9 @@ func init() {
 			}
 			nd := &fnode{size: size, mtime: i.now()}
 			nd.segs = []fseg{{int64(0), size, tag, int64(0)}}
+			for q := filepath.Dir(p); q != "/" && fs.nodes[q] == nil; q = filepath.Dir(q) {
+				fs.nodes[q] = &fnode{dir: true, size: int64(0), mtime: i.now()}
+			}
 			fs.nodes[p] = nd
 			return nil
 		},
